@@ -158,6 +158,13 @@ impl Monitor for C19 {
         let mut out = Vec::new();
         if ev.out.ok {
             scan(ev.post, ev.idx, cov, &mut out);
+            // a setter / initialiser stores exactly what it was asked to store
+            for v in ev.ix_views() {
+                cov.probe("setter_echo_checked");
+                if let Some(d) = crate::mon::setters::echo_mismatch(&v, false) {
+                    out.push(viol("setter_does_not_store_its_argument", ev.idx, d));
+                }
+            }
         }
         // setters and initialisers: outcome classes for coverage
         if ev.tx.ixs.len() == 1 {
